@@ -164,9 +164,9 @@ def union_family(fams, quick_each):
         rng = random.Random(seed + 5)
         out = []
         for f in fams:
-            ps = f(tier, seed)
+            ps = f("thorough" if tier == "thorough" else "quick", seed)
             if tier != "thorough" and len(ps) > quick_each:
-                ps = rng.sample(ps, quick_each)
+                ps = F_tasks.sample(rng, ps, quick_each)
             out.extend(ps)
         return F_tasks.number([json.loads(json.dumps(p)) for p in out])
     return fam
@@ -188,7 +188,7 @@ def register():
     RUNNERS["C10"] = encoding_runner("C10", logic.fam_C10, {S, Cm})
     RUNNERS["C05"] = encoding_runner(
         "C05", union_family([tasks.fam_C01, tasks.fam_C02, tasks.fam_C03, resources.fam_C04,
-                             optional.fam_C06, buffers.fam_C09, logic.fam_C10], 70),
+                             optional.fam_C06, buffers.fam_C09, logic.fam_C10], 150),
         {Cm}, {"soundness": False, "replay_per_problem": 2})
 
 
